@@ -359,6 +359,9 @@ package verify
 //@ func verifyCollateral(options) (err)
 //@   requires options != nil && (options.collateral != nil ==> options.Now != nil)
 //@   ensures[accept] err == nil ==> collateralPresent(options.collateral, options) && collateralNotExpired(options.collateral, options)
+//@ |     && !iszero(options.collateral.TdxTcbInfo) && !iszero(options.collateral.QeIdentity)
+//@   ensures[complete] collateralPresent(options.collateral, options) && collateralNotExpired(options.collateral, options)
+//@ |     && !iszero(options.collateral.TdxTcbInfo) && !iszero(options.collateral.QeIdentity) ==> err == nil
 
 //@ define collateralOK(o) = collateralPresent(o.collateral, o) && collateralNotExpired(o.collateral, o) && tcbInfoOK(o) && qeIdentityDocOK(o)
 
@@ -372,7 +375,49 @@ package verify
 //@   requires quoteOK(quote) && options != nil && options.Now != nil && chainWFin(options.chain) && options.chain.PCKCertificate != nil
 //@   requires options.GetCollateral ==> options.collateral != nil && collWFin(options.collateral)
 //@   requires options.collateral != nil ==> options.pckCertExtensions != nil
+//@   reveal pckChainOK, tcbInfoOK, qeIdentityDocOK, responseOK, collateralNotExpired
 //@   ensures[accept] err == nil ==> evidenceOK(quote, options)
+//@   ensures[gating] err == nil ==> evidenceAt(quote, options, options.GetCollateral, options.CheckRevocations)
+//@   ensures[mono-revocation] err == nil ==> evidenceAt(quote, options, options.GetCollateral, false)
+//@   ensures[mono-collateral] err == nil ==> evidenceAt(quote, options, false, false)
+// ---- the same acceptance predicate with the two option flags as explicit
+// parameters (gc = GetCollateral, cr = CheckRevocations), so that "more checking
+// never accepts more" can be stated: whatever is accepted satisfies the
+// predicate of every weaker setting ----
+//@ define pckChainAt(o, gc, cr) = chainRolesOK(o.chain) && chainAnchored(o.chain, o) && chainNotExpired(o.chain, o)
+//@ |     && (cr ==> gc && chainRevocationOK(o.chain, o.collateral))
+//@ define responseAt(phrase, root, signer, body, sig, crl, o, t, gc, cr) = certRoleOK(root, root, "Intel SGX Root CA") && certRoleOK(signer, root, phrase)
+//@ |     && x509Valid(addr(signer), effRoots(o), poolEmpty(), t)
+//@ |     && hexOK(sig) && len(hexDecode(sig)) == 64 && certSigOK(addr(signer), 10, seq(body), derSig(hexDecode(sig)[0:32], hexDecode(sig)[32:64]))
+//@ |     && (cr ==> gc && crlOK(crl, root) && notRevoked(crl, signer))
+//@ define collateralAt(o, gc, cr) = o.collateral != nil && o.collateral.TcbInfoBody != nil && o.collateral.EnclaveIdentityBody != nil
+//@ |     && o.collateral.TcbInfoIssuerIntermediateCertificate != nil && o.collateral.TcbInfoIssuerRootCertificate != nil
+//@ |     && o.collateral.QeIdentityIssuerIntermediateCertificate != nil && o.collateral.QeIdentityIssuerRootCertificate != nil
+//@ |     && (cr ==> o.collateral.PckCrl != nil && o.collateral.RootCaCrl != nil && o.collateral.PckCrlIssuerIntermediateCertificate != nil && o.collateral.PckCrlIssuerRootCertificate != nil)
+//@ |     && !(o.Now.TcbInfo > o.collateral.TdxTcbInfo.TcbInfo.NextUpdate) && !(o.Now.QeIdentity > o.collateral.QeIdentity.EnclaveIdentity.NextUpdate)
+//@ |     && !(o.Now.TcbInfo > o.collateral.TcbInfoIssuerIntermediateCertificate.NotAfter) && !(o.Now.TcbInfo > o.collateral.TcbInfoIssuerRootCertificate.NotAfter)
+//@ |     && !(o.Now.QeIdentity > o.collateral.QeIdentityIssuerRootCertificate.NotAfter) && !(o.Now.QeIdentity > o.collateral.QeIdentityIssuerIntermediateCertificate.NotAfter)
+//@ |     && (cr ==> !(o.Now.RootCaCrl > o.collateral.RootCaCrl.NextUpdate) && !(o.Now.PckCrl > o.collateral.PckCrl.NextUpdate)
+//@ |          && !(o.Now.PckCrl > o.collateral.PckCrlIssuerIntermediateCertificate.NotAfter) && !(o.Now.PckCrl > o.collateral.PckCrlIssuerRootCertificate.NotAfter))
+//@ |     && o.collateral.TdxTcbInfo.TcbInfo.ID == "TDX" && o.collateral.TdxTcbInfo.TcbInfo.Version == 3 && len(o.collateral.TdxTcbInfo.TcbInfo.TcbLevels) > 0
+//@ |     && responseAt("Intel SGX TCB Signing", o.collateral.TcbInfoIssuerRootCertificate, o.collateral.TcbInfoIssuerIntermediateCertificate,
+//@ |          o.collateral.TcbInfoBody, o.collateral.TdxTcbInfo.Signature, o.collateral.RootCaCrl, o, o.Now.TcbInfo, gc, cr)
+//@ |     && o.collateral.QeIdentity.EnclaveIdentity.ID == "TD_QE" && o.collateral.QeIdentity.EnclaveIdentity.Version == 2
+//@ |     && len(o.collateral.QeIdentity.EnclaveIdentity.TcbLevels) > 0
+//@ |     && responseAt("Intel SGX TCB Signing", o.collateral.QeIdentityIssuerRootCertificate, o.collateral.QeIdentityIssuerIntermediateCertificate,
+//@ |          o.collateral.EnclaveIdentityBody, o.collateral.QeIdentity.Signature, o.collateral.RootCaCrl, o, o.Now.QeIdentity, gc, cr)
+//@ define evidenceAt(q, o, gc, cr) = q.Header.TeeType == 0x81 && pckChainAt(o, gc, cr) && (gc ==> collateralAt(o, gc, cr))
+//@ |     && quoteSigOK(q) && qeSigOK(q, o.chain.PCKCertificate) && bindOK(q) && (o.collateral != nil ==> collateralChecksOK(q, o))
+
+// without collateral checking nothing beyond the signature chain and the PCK
+// chain can cause a rejection (C11, and the lower end of C12's monotonicity)
+//@   ensures[complete-without-collateral] !options.GetCollateral && options.collateral == nil
+//@ |     && options.chain.RootCertificate != nil && options.chain.IntermediateCertificate != nil
+//@ |     && evidenceOK(quote, options) ==> err == nil
+// and with it: acceptance is exactly the predicate (plus the two zero-value
+// tests on the fetched documents)
+//@   ensures[complete] options.chain.RootCertificate != nil && options.chain.IntermediateCertificate != nil && evidenceOK(quote, options)
+//@ |     && (options.GetCollateral ==> !iszero(options.collateral.TdxTcbInfo) && !iszero(options.collateral.QeIdentity)) ==> err == nil
 
 //@ func verifyEvidence(quote, options) (err)
 //@   inline
